@@ -37,6 +37,25 @@ Theorem C09_lines_all_but_empty_last : forall ls l,
 Proof. intros ls l. exact (conj (process_lines_last_empty ls) (conj (process_lines_last_nonempty ls l) eq_refl)). Qed.
 Print Assumptions C09_lines_all_but_empty_last.
 
+(* ... for EVERY number of submitted lines (there is no line limit on the way from bbs.CreateArticle to the file;
+   ptttype.MAX_EDIT_LINE bounds the terminal editor only): the file of a successful post holds one processed line
+   for each line of kept_lines (q_lines q), which is the submitted list itself, or the submitted list without its
+   last element when that element is the empty line; so the number of stored body lines is the number of submitted
+   lines minus the skipped empty last one, the i-th stored line comes from the i-th submitted line, and (when no
+   submitted line contains a line feed itself) that number is the number of line feeds between header and signature *)
+Theorem C09_all_lines_stored : forall role u b q u' b' o, in_range q -> post_on role u b q = Ok (u', b', o) ->
+  let ls := q_lines q in
+  lookup (cprefix (o_fn o)) (b_files b') =
+    Some (header u b (tn_safe_strip role (full_title (q_class q) (q_title q))) (q_nowH q)
+          ++ flat_map process_line (kept_lines ls) ++ signature (q_ip q) ++ url_line b (o_fn o)) /\
+  (if ends_empty ls then ls = kept_lines ls ++ [[]] else kept_lines ls = ls) /\
+  (ends_empty ls = true <-> exists ls', ls = ls' ++ [[]]) /\
+  length (kept_lines ls) = (length ls - (if ends_empty ls then 1 else 0))%nat /\
+  (forall i, (i < length (kept_lines ls))%nat -> nth i (kept_lines ls) [] = nth i ls []) /\
+  (Forall (fun l => ~ In 10 l) ls -> count_nl (flat_map process_line (kept_lines ls)) = length (kept_lines ls)).
+Proof. exact all_lines_stored. Qed.
+Print Assumptions C09_all_lines_stored.
+
 (* ... each cut at its first NUL with the trailing blanks (and only those) removed ... *)
 Theorem C09_line_trimmed : forall l, exists k,
   cprefix l = trim l ++ repeat 32 k /\ (trim l = [] \/ last (trim l) 0 <> 32) /\ Forall (fun c => c <> 0) (trim l).
